@@ -228,8 +228,16 @@ def run_all(ctx, scheds, expects=None):
                 await gate.wait()
             sm.asyncio.sleep = gated_sleep            # instance attribute shadows the proxy's default sleep
             async with fe.Server() as srv:
+                import time as _t
+                slow = 0
                 for i, s in enumerate(scheds):
+                    t0 = _t.time()
                     results.append(await run_schedule(fe, fx, srv, f"ov{i:05d}", s, expects[i] if expects else None))
+                    # a run that waits out its time-outs means the implementation left the model's path: a handful of those
+                    # decide the verdict, the rest would only cost minutes
+                    slow += (_t.time() - t0) > 2.5
+                    if slow >= 8:
+                        break
         asyncio.run(main())
     finally:
         fe.teardown()
